@@ -20,6 +20,11 @@
     - [aead_correct K], [aead_wrong_key K], [ct_not_pem K] : AES-GCM opens what
                           it sealed, under no other key, and a wrapped file does
                           not parse as a PEM key.
+    Section 1d covers the hash algorithm of a CBnT signature when the caller names
+    one and when the caller leaves it to the scheme (null / unknown hash NAMES in
+    the signing entry points, [parse_alg] / [sign_entry]); section 3c makes the
+    dependence of placement and binding on EVERY byte of key data of any length
+    (RSA-2048, RSA-3072) explicit and characterises keys that are not RSA keys.
     Section 3b covers multi-step use of ONE key-manifest object (GetBPMPubHash on
     a KM that already holds a digest, was parsed from a signed file, was signed
     in between ...): theorems over all prior states and all histories.
@@ -33,6 +38,8 @@
     DecryptPrivKey on short input (4423a4c: C18_decrypt_short_input_is_error,
     C18_decrypt_never_panics). *)
 From CSS Require Import Lib.Base Model.Manifest Proofs.Manifest.
+From Coq Require Strings.String.
+Import String.StringSyntax.
 
 (** * 0. Which generation a file is read as (bgheader.DetectBGV) *)
 
@@ -151,6 +158,141 @@ Theorem C18_sign_verify_null_pkhash_refuted :
     verify_file E KM file = Err 3.
 Proof. exact sign_verify_null_pkhash_witness. Qed.
 Print Assumptions C18_sign_verify_null_pkhash_refuted.
+
+(** 1d. The hash algorithm of a CBnT signature when the caller names one, and when
+    the caller leaves it to the scheme (hash name "ALGNULL" / "ALGUNKNOWN", or a KM
+    whose PubKeyHashAlg is null).
+
+    The suite hands the request to SetSignature AS IT IS: an explicit algorithm
+    is recorded unchanged, a null one stays null and fiano then records the digest
+    the scheme really used. *)
+Theorem C18_hash_label_follows_request :
+  forall sch req, is_null req = false -> stored_hash V20 sch req = req.
+Proof. exact stored_hash_explicit. Qed.
+Print Assumptions C18_hash_label_follows_request.
+
+Theorem C18_hash_label_null_follows_scheme :
+  forall sch req, is_null req = true -> stored_hash V20 sch req = scheme_hash sch.
+Proof. exact stored_hash_null. Qed.
+Print Assumptions C18_hash_label_null_follows_scheme.
+
+(** Condition (label) of C18_sign_verify_partial holds EXACTLY for the null requests
+    and for the request naming the scheme's own digest (RSASSA+SHA256,
+    RSAPSS+SHA384); every other pair is the open finding C18-cbnt-sign-hash-label. *)
+Theorem C18_hash_label_condition_iff :
+  forall sch req,
+  stored_hash V20 sch req = scheme_hash sch <-> is_null req = true \/ req = scheme_hash sch.
+Proof. exact hash_label_ok_iff. Qed.
+Print Assumptions C18_hash_label_condition_iff.
+
+(** ... so the null requests are the only ones that are right for BOTH schemes, *)
+Theorem C18_only_null_request_fits_both_schemes :
+  forall req,
+  (stored_hash V20 AlgRSASSA req = scheme_hash AlgRSASSA /\
+   stored_hash V20 AlgRSAPSS req = scheme_hash AlgRSAPSS) <-> is_null req = true.
+Proof. exact only_null_fits_both_schemes. Qed.
+Print Assumptions C18_only_null_request_fits_both_schemes.
+
+(** ... and a glue that replaced a null request by ANY fixed explicit algorithm
+    before signing (a "default") would store a wrong label for one of the two
+    schemes: the null request has to reach SetSignature untouched. *)
+Theorem C18_explicit_hash_default_breaks_a_scheme :
+  forall dflt req, is_null dflt = false -> is_null req = true ->
+  exists sch, (sch = AlgRSASSA \/ sch = AlgRSAPSS) /\
+              stored_hash_defaulting dflt V20 sch req <> scheme_hash sch.
+Proof. exact explicit_default_breaks_a_scheme. Qed.
+Print Assumptions C18_explicit_hash_default_breaks_a_scheme.
+
+(** CBnT BPM with a null hash request or the scheme's own digest: sign-then-verify
+    under the third-party assumptions alone, no condition on the glue left. *)
+Theorem C18_sign_verify_cbnt_bpm_fitting :
+  forall (E : env) (m : M E) sch req (sk : SK E) sd,
+  scheme_sound E -> store_laws E ->
+  is_null req = true \/ req = scheme_hash sch ->
+  let m0 := prep E V20 BPM m in
+  let m' := signed_struct E V20 BPM m sch req sk sd in
+  sign_raw E sk sch (signed_message E V20 BPM m0) = Some sd ->
+  detect (ser E m') = Some V20 ->
+  parse E V20 BPM (ser E m') = Some m' ->
+  (* offset *) sign_cut E V20 BPM m' = sign_cut E V20 BPM m0 ->
+  (* stable *) firstn (sign_cut E V20 BPM m0) (ser E m') = firstn (sign_cut E V20 BPM m0) (ser E m0) ->
+  sign_manifest E V20 BPM m sch req sk = Ok (ser E m') /\
+  verify_file E BPM (ser E m') = Ok tt.
+Proof. exact sign_verify_cbnt_bpm_fitting. Qed.
+Print Assumptions C18_sign_verify_cbnt_bpm_fitting.
+
+(** The NAMES (bg./cbnt.GetAlgFromString as [parse_alg]; ASCII, any letter case):
+    "ALGNULL" and "ALGUNKNOWN" are known to both generations and stand for a null
+    algorithm, and no other name does. *)
+Theorem C18_null_hash_names :
+  forall g name,
+  (map upper name = bs "ALGNULL" -> parse_alg g name = Some AlgNull) /\
+  (map upper name = bs "ALGUNKNOWN" -> parse_alg g name = Some AlgUnknown) /\
+  is_null AlgNull = true /\ is_null AlgUnknown = true.
+Proof.
+  intros g name. split; [exact (parse_alg_null_name g name)|].
+  split; [exact (parse_alg_unknown_name g name)|]. split; reflexivity.
+Qed.
+Print Assumptions C18_null_hash_names.
+
+Theorem C18_null_hash_names_only :
+  forall g name a, parse_alg g name = Some a -> is_null a = true ->
+  map upper name = bs "ALGNULL" \/ map upper name = bs "ALGUNKNOWN".
+Proof. exact parse_alg_null_inv. Qed.
+Print Assumptions C18_null_hash_names_only.
+
+(** The entry points with names ([sign_entry]): a name the table of the manifest's
+    generation does not know is an error (for the hash name: CBnT SignBPM only);
+    every entry point but the CBnT SignBPM never looks at the hash name. *)
+Theorem C18_sign_entry_unknown_name_is_error :
+  forall (E : env) g d (m : M E) sname hname (sk : SK E),
+  parse_alg g sname = None \/ (g = V20 /\ d = BPM /\ parse_alg V20 hname = None) ->
+  sign_entry E g d m sname hname sk = Err 2.
+Proof. exact sign_entry_unknown_name. Qed.
+Print Assumptions C18_sign_entry_unknown_name_is_error.
+
+Theorem C18_sign_entry_ignores_hash_name :
+  forall (E : env) g d (m : M E) sname h1 h2 (sk : SK E),
+  ~ (g = V20 /\ d = BPM) ->
+  sign_entry E g d m sname h1 sk = sign_entry E g d m sname h2 sk.
+Proof. exact sign_entry_ignores_hash_name. Qed.
+Print Assumptions C18_sign_entry_ignores_hash_name.
+
+(** SignBPM (CBnT) called with a hash NAME that stands for a null algorithm: the
+    manifest signs and verifies for every scheme the signer accepts, and the label
+    stored is the scheme's own digest. *)
+Theorem C18_sign_entry_null_hash_name :
+  forall (E : env) (m : M E) sname hname sch req (sk : SK E) sd,
+  scheme_sound E -> store_laws E ->
+  parse_alg V20 sname = Some sch ->
+  parse_alg V20 hname = Some req -> is_null req = true ->
+  let m0 := prep E V20 BPM m in
+  let m' := signed_struct E V20 BPM m sch req sk sd in
+  sign_raw E sk sch (signed_message E V20 BPM m0) = Some sd ->
+  detect (ser E m') = Some V20 ->
+  parse E V20 BPM (ser E m') = Some m' ->
+  (* offset *) sign_cut E V20 BPM m' = sign_cut E V20 BPM m0 ->
+  (* stable *) firstn (sign_cut E V20 BPM m0) (ser E m') = firstn (sign_cut E V20 BPM m0) (ser E m0) ->
+  sign_entry E V20 BPM m sname hname sk = Ok (ser E m') /\
+  verify_file E BPM (ser E m') = Ok tt /\
+  sg_hash (mk_sig sch (stored_hash V20 sch req) sd) = scheme_hash sch.
+Proof. exact sign_entry_null_hash_name. Qed.
+Print Assumptions C18_sign_entry_null_hash_name.
+
+(** the hypotheses are satisfiable (RSAPSS, "AlgNull"); the same request with the
+    null algorithm replaced by SHA256 before signing is rejected *)
+Example C18_sign_entry_null_hash_name_example :
+  let m := toy_unsigned 33 11 in
+  let sd := 5 :: AlgRSAPSS :: [0;0;0;0;0;0;0;0;33;13;11;1;2] in
+  let m' := signed_struct Toy V20 BPM m AlgRSAPSS AlgNull 5 sd in
+  parse_alg V20 (bs "rsapss") = Some AlgRSAPSS /\ parse_alg V20 (bs "AlgNull") = Some AlgNull /\
+  is_null AlgNull = true /\
+  sign_raw Toy 5 AlgRSAPSS (signed_message Toy V20 BPM (prep Toy V20 BPM m)) = Some sd /\
+  detect (ser Toy m') = Some V20 /\ parse Toy V20 BPM (ser Toy m') = Some m' /\
+  sign_entry Toy V20 BPM m (bs "rsapss") (bs "AlgNull") 5 = Ok (ser Toy m') /\
+  verify_file Toy BPM (ser Toy m') = Ok tt /\
+  verify_file Toy BPM (ser Toy (signed_struct Toy V20 BPM m AlgRSAPSS AlgSHA256 5 sd)) = Err 3.
+Proof. exact sign_entry_null_hash_name_example. Qed.
 
 (** * 2. Tampering *)
 
@@ -455,6 +597,84 @@ Example C18_keymatch_shared_usage_example :
   cbnt_key_match toyH hs AlgRSA kd = Ok true /\ cbnt_km_has_bpm_hash hs = Ok true /\
   cbnt_key_match toyH hs AlgRSA kd' = Err 1.
 Proof. exact keymatch_shared_usage_example. Qed.
+
+(** * 3c. Key sizes and key kinds
+
+    Key data is a byte string of any length: 4 exponent bytes + 256 (RSA-2048) or
+    384 (RSA-3072) modulus bytes.  None of the theorems of sections 3 and 3b bounds
+    it; the following make the dependence on EVERY byte explicit. *)
+
+(** A successful GetBPMPubHash stores the digest of ALL key data after the exponent. *)
+Theorem C18_place_digest_whole_key :
+  forall (H : Z -> bytes -> bytes) st keyok req kd st',
+  km_place H st keyok req kd = (Ok tt, st') ->
+  exists alg, req = Some alg /\ (4 <= length kd)%nat /\
+    st' = match st with
+          | KmBG _ _ => KmBG alg (H alg (skipn 4 kd))
+          | KmCBNT _ => KmCBNT [mk_kmhash UsageBPMSigningPKD alg (H alg (skipn 4 kd))]
+          end.
+Proof. exact place_digest_whole_key. Qed.
+Print Assumptions C18_place_digest_whole_key.
+
+(** Two keys that differ in any byte after the exponent (position 4 or position 387)
+    are told apart by the binding check, when H tells their moduli apart. *)
+Theorem C18_binding_every_key_byte :
+  forall H : Z -> bytes -> bytes,
+  (forall alg n x, cbnt_hash_size alg = Some n -> length (H alg x) = n) ->
+  forall st keyok req alg kd0 kd st' i, (4 <= length kd)%nat ->
+  km_place H st keyok req kd0 = (Ok tt, st') ->
+  req = Some alg ->
+  (match st with KmBG _ _ => alg = AlgSHA256 | KmCBNT _ => True end) ->
+  (H alg (skipn 4 kd0) = H alg (skipn 4 kd) -> skipn 4 kd0 = skipn 4 kd) ->
+  (4 <= i)%nat -> nth i kd0 0 <> nth i kd 0 ->
+  km_binding_ok H st' AlgRSA kd = false.
+Proof. exact binding_every_key_byte. Qed.
+Print Assumptions C18_binding_every_key_byte.
+
+(** The key that was placed binds, whatever its length ... *)
+Theorem C18_whole_digest_accepts_own_key :
+  forall H : Z -> bytes -> bytes,
+  (forall alg n x, cbnt_hash_size alg = Some n -> length (H alg x) = n) ->
+  forall st alg kd, (4 <= length kd)%nat ->
+  km_size st alg <> None ->
+  (match st with KmBG _ _ => alg = AlgSHA256 | KmCBNT _ => True end) ->
+  km_binding_ok H (placed_state H st alg kd) AlgRSA kd = true.
+Proof. exact whole_digest_accepts_own_key. Qed.
+Print Assumptions C18_whole_digest_accepts_own_key.
+
+(** ... whereas a placement digesting only the first [n] bytes of the modulus (a
+    fixed width such as 256) would make the binding check reject the very key it
+    placed, for every key with a longer modulus (H not colliding on the modulus and
+    its prefix): the digest has to cover the whole modulus. *)
+Theorem C18_truncated_digest_rejects_own_key :
+  forall H : Z -> bytes -> bytes,
+  (forall alg n x, cbnt_hash_size alg = Some n -> length (H alg x) = n) ->
+  forall n st alg kd, (4 <= length kd)%nat ->
+  km_size st alg <> None ->
+  (match st with KmBG _ _ => alg = AlgSHA256 | KmCBNT _ => True end) ->
+  (n < length kd - 4)%nat ->
+  (H alg (firstn n (skipn 4 kd)) = H alg (skipn 4 kd) -> firstn n (skipn 4 kd) = skipn 4 kd) ->
+  km_binding_ok H (placed_state_trunc H n st alg kd) AlgRSA kd = false.
+Proof. exact truncated_digest_rejects_own_key. Qed.
+Print Assumptions C18_truncated_digest_rejects_own_key.
+
+Example C18_truncated_digest_example :
+  let kd := [1;0;1;0; 7;8;9;10;11;12] in
+  let kd' := [1;0;1;0; 7;8;9;10;99;98] in
+  let st := KmBG AlgSHA256 [] in
+  km_binding_ok toyH (placed_state_trunc toyH 4 st AlgSHA256 kd) AlgRSA kd = false /\
+  placed_state_trunc toyH 4 st AlgSHA256 kd = placed_state_trunc toyH 4 st AlgSHA256 kd' /\
+  km_binding_ok toyH (placed_state toyH st AlgSHA256 kd) AlgRSA kd = true /\
+  km_binding_ok toyH (placed_state toyH st AlgSHA256 kd) AlgRSA kd' = false.
+Proof. exact truncated_digest_example. Qed.
+
+(** Key kinds: a BPM key that is not an RSA key (the tool generates ECC keys too)
+    never binds, whatever the KM holds: a restriction of the tool, failing closed. *)
+Theorem C18_binding_non_rsa_fails_closed :
+  forall (H : Z -> bytes -> bytes) st keyalg kd,
+  keyalg <> AlgRSA -> km_binding_ok H st keyalg kd = false.
+Proof. exact binding_non_rsa_fails_closed. Qed.
+Print Assumptions C18_binding_non_rsa_fails_closed.
 
 (** * 4. Wrapped private keys *)
 
